@@ -908,7 +908,7 @@ def persist_family(w, pid, corrupt, what, also=(), extra_modes=()):
     tot["boots_validated"] = sum(r.get("stats", {}).get("boots", 0) for r in w.tv)
     tot["store_rows_written"] = sum(r.get("stats", {}).get("stw", 0) for r in w.tv)
     tot["store_reads_compared_by_tlc"] = sum(r.get("stats", {}).get("str", 0) for r in w.tv)
-    if tot.get("crash_points", 0) < 3 or tot.get("restarts", 0) < 6 or tot["store_reads_compared_by_tlc"] < 500:
+    if not violations and (tot.get("crash_points", 0) < 3 or tot.get("restarts", 0) < 6 or tot["store_reads_compared_by_tlc"] < 500):
         raise Infra("vacuous run: %s" % tot)
     return sums, violations, known_hits, drift, st, tot
 
